@@ -384,7 +384,12 @@ class Gen:
                 if cnt == 0 and not isinstance(cnt, str):
                     cnt = 2
             self.budget -= 1
-            return [{"k": "sub", "count": cnt, "body": self.inside_items(params, depth + 1, None)}]
+            body = self.inside_items(params, depth + 1, None)
+            if t.chance(cfg["p_weird_bracket"]):
+                # legal: the block's own prepare_all followed by an explicit one (gates before
+                # a repeated prepare_all are discarded)
+                body = [copy.deepcopy(prep)] + body if t.chance(0.5) else body[: len(body) // 2] + [copy.deepcopy(prep)] + body[len(body) // 2 :]
+            return [{"k": "sub", "count": cnt, "body": body}]
         body = self.inside_items(params, depth, None)
         out = [prep] + body
         if t.chance(cfg["p_weird_bracket"]):
